@@ -726,7 +726,7 @@ pub mod harness {
             }
             writeln!(
                 out,
-                "{{\"id\":{},\"rows\":{},\"executions\":{},\"decisions\":{},\"states\":{},\"outcomes\":{},\"max_logs_per_row\":{},\"capped\":{},\"nviol\":{},\"viols\":[{}],\"sample\":{},\"failures_returned\":{},\"crosschecks\":{},\"crosscheck_ok\":{},\"unpruned_executions\":{},\"ms\":{}}}",
+                "{{\"id\":{},\"rows\":{},\"executions\":{},\"decisions\":{},\"states\":{},\"outcomes\":{},\"max_logs_per_row\":{},\"capped\":{},\"ohash\":\"{:x}\",\"nviol\":{},\"viols\":[{}],\"sample\":{},\"failures_returned\":{},\"crosschecks\":{},\"crosscheck_ok\":{},\"unpruned_executions\":{},\"ms\":{}}}",
                 jesc(p.id),
                 nrows,
                 executions,
@@ -735,6 +735,12 @@ pub mod harness {
                 outcomes.len(),
                 max_logs,
                 capped,
+                {
+                    use std::hash::{Hash, Hasher};
+                    let mut h = std::collections::hash_map::DefaultHasher::new();
+                    outcomes.hash(&mut h);
+                    h.finish()
+                },
                 nviol,
                 viols.join(","),
                 if sample.is_empty() { "null".to_string() } else { sample },
